@@ -155,6 +155,16 @@ func SchemaAtoms() []SchemaAtom {
 	}
 	add("integer.uint32.max10", J{"type": "integer", "format": "uint32", "maximum": n("10")})
 	add("integer.uint64.min1", J{"type": "integer", "format": "uint64", "minimum": n("1")})
+	// every numeric Go type: exclusive flag on one bound only (the two flags must not be confused)
+	for _, f := range []string{"int32", "int64", "uint32", "uint64"} {
+		add("integer."+f+".min1+exclmax10", J{"type": "integer", "format": f, "minimum": n("1"), "maximum": n("10"), "exclusiveMaximum": true})
+		add("integer."+f+".exclmin1+max10", J{"type": "integer", "format": f, "minimum": n("1"), "exclusiveMinimum": true, "maximum": n("10")})
+		add("integer."+f+".exclmax10-only", J{"type": "integer", "format": f, "maximum": n("10"), "exclusiveMaximum": true})
+	}
+	for _, f := range []string{"float", "double"} {
+		add("number."+f+".min1+exclmax10", J{"type": "number", "format": f, "minimum": n("1"), "maximum": n("10"), "exclusiveMaximum": true})
+		add("number."+f+".exclmin1+max10", J{"type": "number", "format": f, "minimum": n("1"), "exclusiveMinimum": true, "maximum": n("10")})
+	}
 	// ---- number validations
 	for _, f := range []string{"", "float", "double"} {
 		sfx := ""
@@ -222,6 +232,15 @@ func SchemaAtoms() []SchemaAtom {
 	a = add("map.of-ref", J{"type": "object", "additionalProperties": ref("AuxItem")})
 	a.Aux = map[string]J{"AuxItem": obj([]string{"id"}, J{"id": J{"type": "integer", "minimum": n("1")}})}
 	add("map.of-object", J{"type": "object", "additionalProperties": obj([]string{"k"}, J{"k": J{"type": "string", "minLength": n("2")}})})
+	a = add("map.of-array.of-ref", J{"type": "object", "additionalProperties": J{"type": "array", "items": ref("AuxDeep1")}})
+	a.Aux = map[string]J{"AuxDeep1": obj([]string{"id"}, J{"id": J{"type": "integer", "minimum": n("1")}, "tag": J{"type": "string", "maxLength": n("3")}})}
+	a = add("array.of-map.of-ref", J{"type": "array", "items": J{"type": "object", "additionalProperties": ref("AuxDeep2")}})
+	a.Aux = map[string]J{"AuxDeep2": obj([]string{"id"}, J{"id": J{"type": "integer", "minimum": n("1")}})}
+	a = add("array.of-array.of-ref", J{"type": "array", "items": J{"type": "array", "items": ref("AuxDeep3")}})
+	a.Aux = map[string]J{"AuxDeep3": obj([]string{"id"}, J{"id": J{"type": "integer", "minimum": n("1")}})}
+	a = add("map.of-map.of-ref", J{"type": "object", "additionalProperties": J{"type": "object", "additionalProperties": ref("AuxDeep4")}})
+	a.Aux = map[string]J{"AuxDeep4": obj([]string{"id"}, J{"id": J{"type": "integer", "minimum": n("1")}})}
+	add("map.of-array.of-object", J{"type": "object", "additionalProperties": J{"type": "array", "items": obj([]string{"k"}, J{"k": J{"type": "string", "minLength": n("2")}})}})
 	add("map.minProperties1", J{"type": "object", "minProperties": n("1"), "additionalProperties": J{"type": "string"}})
 	add("map.maxProperties1", J{"type": "object", "maxProperties": n("1"), "additionalProperties": J{"type": "integer"}})
 	add("map.true", J{"type": "object", "additionalProperties": true})
@@ -266,6 +285,11 @@ func SchemaAtoms() []SchemaAtom {
 	a = add("allOf.with-map-member", J{"allOf": []any{ref("AuxKeyed"), J{"type": "object", "additionalProperties": J{"type": "integer", "maximum": n("9")}}}})
 	a.Aux = map[string]J{"AuxKeyed": obj([]string{"key"}, J{"key": J{"type": "string", "minLength": n("2")}})}
 	a.NoValidate = true
+	a = add("allOf.inline-required-empties", J{"allOf": []any{ref("AuxReqBase"), obj([]string{"tags", "enabled", "count", "list", "note"}, J{
+		"tags": J{"type": "object", "additionalProperties": J{"type": "string"}}, "enabled": J{"type": "boolean", "x-nullable": false}, "count": J{"type": "integer", "x-nullable": false},
+		"list": J{"type": "array", "items": J{"type": "string"}}, "note": J{"type": "string", "x-nullable": false}})}})
+	a.Aux = map[string]J{"AuxReqBase": obj([]string{"id"}, J{"id": J{"type": "integer", "minimum": n("1")}})}
+	a.Docs = []any{jx.MustParse(`{"id":2,"tags":{},"enabled":false,"count":0,"list":[],"note":""}`), jx.MustParse(`{"id":2,"tags":{"a":"b"},"enabled":true,"count":3,"list":["x"],"note":"n"}`)}
 	// ---- polymorphism
 	a = add("poly.base", ref("PolyAnimal"))
 	a.RootOnly, a.Poly = true, true
@@ -279,6 +303,18 @@ func SchemaAtoms() []SchemaAtom {
 		jx.MustParse(`{"kind":"PolyCat","name":"tom","lives":3}`), jx.MustParse(`{"kind":"PolyCat","name":"t","lives":3}`), jx.MustParse(`{"kind":"PolyCat","name":"tom","lives":10}`),
 		jx.MustParse(`{"kind":"PolyDog","name":"rex","bark":"loud"}`), jx.MustParse(`{"kind":"PolyDog","name":"rex"}`), jx.MustParse(`{"kind":"PolyDog","name":"rex","bark":"mute"}`),
 		jx.MustParse(`{"kind":"PolyDog","bark":"soft"}`),
+	}
+	a = add("poly.x-class", ref("PolyShape"))
+	a.RootOnly, a.Poly = true, true
+	a.Aux = map[string]J{
+		"PolyShape":  J{"type": "object", "discriminator": "kind", "required": []any{"kind"}, "properties": J{"kind": J{"type": "string"}, "label": J{"type": "string", "maxLength": n("5")}}},
+		"PolyCircle": J{"x-class": "shapes.Circle", "allOf": []any{ref("PolyShape"), obj([]string{"radius"}, J{"radius": J{"type": "number", "minimum": n("0.5")}})}},
+		"PolySquare": J{"allOf": []any{ref("PolyShape"), obj(nil, J{"side": J{"type": "integer", "minimum": n("1")}})}},
+		"PolyDrawing": obj(nil, J{"main": ref("PolyShape"), "shapes": J{"type": "array", "items": ref("PolyShape")}}),
+	}
+	a.Docs = []any{
+		jx.MustParse(`{"kind":"shapes.Circle","label":"c","radius":2.5}`), jx.MustParse(`{"kind":"shapes.Circle","label":"c","radius":0.25}`), jx.MustParse(`{"kind":"shapes.Circle","label":"toolong","radius":1}`),
+		jx.MustParse(`{"kind":"PolySquare","side":3}`), jx.MustParse(`{"kind":"PolySquare","side":0}`), jx.MustParse(`{"kind":"shapes.Circle","label":"c"}`),
 	}
 	// ---- tuples
 	a = add("tuple.basic", J{"type": "array", "items": []any{J{"type": "string", "minLength": n("2")}, J{"type": "integer", "maximum": n("9")}}})
